@@ -188,6 +188,12 @@ def run(pid, tier):
         meta.append({"kind": "malformed", "labels": labels})
         ck.count(("mal", t))
 
+    # the repository's own tests re-run under the recorder: every codec call they make (directly or via secrets)
+    import c_suite
+    for t in c_suite.juniper_traces():
+        traces.append(t)
+        meta.append({"kind": "repository-test-suite", "salt": None})
+    c_suite.note(ck)
     rejected, states = validate_traces("JuniperTrace", "JuniperTrace.cfg", traces)
     ck.traces += len(traces)
     ck.events += sum(len(t) for t in traces)
